@@ -37,6 +37,10 @@ class Finding:
         }
 
 
+class EarlyStop(Exception):
+    """Raised (mutation self-test only) as soon as the expected finding has been reported."""
+
+
 class Ctx:
     """Everything a property's rule set needs, plus bookkeeping for evidence."""
 
@@ -94,6 +98,9 @@ class Ctx:
         # one finding per key
         if all(x.key != f.key for x in self.findings):
             self.findings.append(f)
+        stop = getattr(self, "stop_when", None)
+        if stop is not None and stop(f):
+            raise EarlyStop()
         return f
 
     def floor(self, rule: str, n: int, what: str = "") -> None:
